@@ -40,15 +40,18 @@ abbrev Ctx := Slots Leaf
 /-! ## the context functions used by the protocol (`lena/context/functions.py`) -/
 
 mutual
-/-- body of `for key, val in other.items():` of `update_recursively` (lines 638-647); first argument
-`d.get(key)`, second `other.get(key)`, result: the binding of `key` in `d` afterwards -/
+/-- body of `for key, val in other.items():` of `update_recursively` (lines 638-647) for a key of `other`
+with value `val`; first argument `d.get(key)`; result: `d[key]` afterwards -/
+def updV : Option V → V → V
+  | _, .leaf a => .leaf a                            -- `if not isinstance(val, dict): d[key] = val`
+  | some (.dict x), .dict y => .dict (updL x y)      -- `update_recursively(d[key], other[key])`
+  | some (.leaf _), .dict y =>                       -- `d[key] = {}`, then update it
+    .dict (updL (emptyLike y) y)
+  | none, .dict y => .dict y                         -- `else: d[key] = val`
+/-- the binding of one key in `d` after the loop; second argument `other.get(key)` -/
 def updO : Option V → Option V → Option V
   | d, none => d                                     -- key not in other
-  | _, some (.leaf a) => some (.leaf a)              -- `if not isinstance(val, dict): d[key] = val`
-  | some (.dict x), some (.dict y) => some (.dict (updL x y))
-  | some (.leaf _), some (.dict y) =>                -- `d[key] = {}`, then update it
-    some (.dict (updL (emptyLike y) y))
-  | none, some (.dict y) => some (.dict y)           -- `else: d[key] = val`
+  | d, some v => some (updV d v)
 /-- `update_recursively(d, other)`: the new value of `d` -/
 def updL : Ctx → Ctx → Ctx
   | d, [] => d
@@ -57,18 +60,22 @@ def updL : Ctx → Ctx → Ctx
 end
 
 mutual
-/-- body of `for key in res:` of `intersection` (lines 395-406) at `level = -1`; first argument
-`res.get(key)`, second `d.get(key)`; result: the binding of `key` in `res` after the deletions.  The
+/-- body of `for key in res:` of `intersection` (lines 395-406) at `level = -1` for a key that is in both
+dictionaries, with values `res[key]` and `d[key]`; result: the binding of `key` in `res` afterwards.  The
 recursive call `intersection(res[key], d[key], level=level-1)` on two dictionaries is its loop over the
 single further dictionary (its early `return res` returns the same value). -/
+def interV : V → V → Option V
+  | .dict x, w =>
+    if w = .dict x then some (.dict x)               -- `d[key] != res[key]` is false
+    else match w with
+      | .dict y => some (.dict (interL x y))
+      | .leaf _ => none                              -- `else: to_delete.append(key)`
+  | .leaf a, w => if w = .leaf a then some (.leaf a) else none
+/-- first argument `res.get(key)`, second `d.get(key)` -/
 def interO : Option V → Option V → Option V
   | none, _ => none
   | some _, none => none                             -- `else: to_delete.append(key)`
-  | some v, some w =>
-    if w = v then some v                             -- `d[key] != res[key]` is false
-    else match v, w with
-      | .dict x, .dict y => some (.dict (interL x y))
-      | _, _ => none                                 -- `else: to_delete.append(key)`
+  | some v, some w => interV v w
 def interL : Ctx → Ctx → Ctx
   | [], _ => []
   | x :: r, [] => interO x none :: interL r []
